@@ -669,6 +669,26 @@ var intrinsics = map[string]intrinsicFn{
 		i.path.reach[a[0].(string)] = true
 		return nil
 	},
+	"verifReachIf": func(i *interpreter, a []value) value {
+		id := a[0].(string)
+		if i.path.reach[id] {
+			return nil
+		}
+		c := argBool(a[1])
+		if c.IsConst() {
+			if c.B {
+				i.path.reach[id] = true
+			}
+			return nil
+		}
+		if i.path.job.reached(id) {
+			return nil
+		}
+		if i.path.solver.CheckWith(c) == Sat {
+			i.path.reach[id] = true
+		}
+		return nil
+	},
 	"verifAnd":     func(i *interpreter, a []value) value { return mkBool(And(argBool(a[0]), argBool(a[1]))) },
 	"verifOr":      func(i *interpreter, a []value) value { return mkBool(Or(argBool(a[0]), argBool(a[1]))) },
 	"verifNot":     func(i *interpreter, a []value) value { return mkBool(Not(argBool(a[0]))) },
